@@ -1,0 +1,94 @@
+//go:build verif
+
+package kafka
+
+// Add-only export file for the verification harness in /verif (property C06:
+// a response is only ever delivered to the call that sent the request).
+// Nothing here is compiled into normal builds.
+
+import (
+	"net"
+	"sync/atomic"
+)
+
+// VerifMuxConn wraps nc the way the public constructor does: NewConn(nc, "t", 0).
+func VerifMuxConn(nc net.Conn) *Conn { return NewConn(nc, "t", 0) }
+
+// VerifSetInflight / VerifInflight expose the counter of operations in flight
+// (c.inflight), the value waitResponse consults through c.concurrency().
+func VerifSetInflight(c *Conn, n int32) { atomic.StoreInt32(&c.inflight, n) }
+func VerifInflight(c *Conn) int32       { return atomic.LoadInt32(&c.inflight) }
+
+// VerifSetCorrelationID / VerifCorrelationID expose c.correlationID (guarded by
+// c.wlock in the real code).
+func VerifSetCorrelationID(c *Conn, id int32) {
+	c.wlock.Lock()
+	c.correlationID = id
+	c.wlock.Unlock()
+}
+
+func VerifCorrelationID(c *Conn) int32 {
+	c.wlock.Lock()
+	id := c.correlationID
+	c.wlock.Unlock()
+	return id
+}
+
+// VerifWaitResponse calls c.waitResponse(&c.rdeadline, id).  held reports
+// whether the read lock was handed to the caller (lock != nil).
+func VerifWaitResponse(c *Conn, id int32) (size int, held bool, err error) {
+	_, size, lock, err := c.waitResponse(&c.rdeadline, id)
+	return size, lock != nil, err
+}
+
+// VerifReadUnlock releases the read lock handed out by VerifWaitResponse.
+func VerifReadUnlock(c *Conn) { c.rlock.Unlock() }
+
+// VerifDiscardBody discards n bytes from the connection's read buffer.
+func VerifDiscardBody(c *Conn, n int) error {
+	_, err := c.rbuf.Discard(n)
+	return err
+}
+
+// VerifLoadVersions runs c.loadVersions() (one ApiVersions exchange whose
+// result is cached on the connection) so that later calls of methods using
+// negotiateVersion do not send an ApiVersions request of their own.
+func VerifLoadVersions(c *Conn) error {
+	_, err := c.loadVersions()
+	return err
+}
+
+// VerifFetchMinSize exposes c.fetchMinSize (added to MaxBytes in fetch requests).
+func VerifFetchMinSize(c *Conn) int32 { return c.fetchMinSize }
+
+// VerifFindCoordinator runs c.findCoordinator for the group and returns the
+// coordinator host of the response.
+func VerifFindCoordinator(c *Conn, group string) (host string, err error) {
+	res, err := c.findCoordinator(findCoordinatorRequestV0{CoordinatorKey: group})
+	if err != nil {
+		return "", err
+	}
+	return res.Coordinator.Host, nil
+}
+
+// VerifOffsetFetch runs c.offsetFetch for one partition of one topic of the
+// group and returns the committed offset of the response (-1 when the response
+// lists no partition).
+func VerifOffsetFetch(c *Conn, group, topic string, partition int32) (int64, error) {
+	res, err := c.offsetFetch(offsetFetchRequestV1{
+		GroupID: group,
+		Topics: []offsetFetchRequestV1Topic{{
+			Topic:      topic,
+			Partitions: []int32{partition},
+		}},
+	})
+	if err != nil {
+		return 0, err
+	}
+	for _, r := range res.Responses {
+		for _, p := range r.PartitionResponses {
+			return p.Offset, nil
+		}
+	}
+	return -1, nil
+}
